@@ -90,10 +90,11 @@ class _StrReplacer(_Replacer[str]):
     def _sub(self, s: str) -> str:
         """
         :raises HardErrorException: The replacement string is invalid
+        (re.error: malformed template or invalid group number, IndexError: unknown group name)
         """
         try:
             return self._regex.sub(self._replacement, s)
-        except re.error as ex:
+        except (re.error, IndexError) as ex:
             raise HardErrorException(
                 text_docs.single_pre_formatted_line_object(
                     str_constructor.FormatPositional('Invalid replacement {}: {}',
